@@ -46,7 +46,6 @@ package interp // import "golang.org/x/tools/go/ssa/interp"
 
 import (
 	"fmt"
-	"strings"
 	"go/token"
 	"go/types"
 	"log"
@@ -54,7 +53,9 @@ import (
 	"reflect"
 	"runtime"
 	"slices"
+	"strings"
 	"sync/atomic"
+	"time"
 	_ "unsafe"
 
 	"golang.org/x/tools/go/ssa"
@@ -708,6 +709,9 @@ func runFrame(fr *frame) {
 			}
 			if fr.i.pc.steps > fr.i.pc.maxSteps {
 				panic(pathEnd{"step-limit"})
+			}
+			if fr.i.pc.steps&0xffff == 0 && !fr.i.pc.deadline.IsZero() && time.Now().After(fr.i.pc.deadline) {
+				panic(pathEnd{"path-time-limit"})
 			}
 			if visitInstr(fr, instr) == kReturn {
 				return
